@@ -646,7 +646,16 @@ class PandasModelBase(
         assert target_rows is not None
         if target_rows < 1:
             # no rows, so presuming no index information (shouldn't have come from an aggregation)
-            return self.pd.DataFrame({k: [] for k in cols.keys()})
+            return self.pd.DataFrame(
+                {
+                    k: (
+                        v.reset_index(drop=True, inplace=False)
+                        if isinstance(v, self.pd.Series)
+                        else []
+                    )
+                    for (k, v) in cols.items()
+                }
+            )  # the zero-length columns keep their types
         # agg can return scalars, which then can't be made into a self.pd.DataFrame
         promoted_cols = {
             k: promote_scalar_to_array(v, target_len=target_rows)
@@ -716,7 +725,7 @@ class PandasModelBase(
         if res.shape[0] <= 0:
             # special case out no-row frame
             incoming_col_set = set(res.columns)
-            v_dict = {k: [] for k in res.columns}
+            v_dict = {k: res[k] for k in res.columns}  # the incoming columns keep their types
             for k in op.ops.keys():
                 if k not in incoming_col_set:
                     v_dict[k] = []
@@ -902,6 +911,7 @@ class PandasModelBase(
                         + str(opk)
                     )
         res["_data_table_temp_col"] = 1
+        group_col_types = {g: res[g].dtype for g in op.group_by}
         if len(op.group_by) > 0:
             res = res.groupby(op.group_by, observed=True, dropna=False)
         if len(op.ops) > 0:
@@ -946,7 +956,7 @@ class PandasModelBase(
                 raise ValueError("Missing column groups")
         else:
             for g in missing_group_cols:
-                res[g] = []
+                res[g] = self.pd.Series([], dtype=group_col_types[g])
         if "_data_table_temp_col" in res.columns:
             res = res.drop("_data_table_temp_col", axis=1, inplace=False)
         # double check shape is what we expect
@@ -1071,8 +1081,13 @@ class PandasModelBase(
         left = self._eval_value_source(op.sources[0], data_map=data_map)
         right = self._eval_value_source(op.sources[1], data_map=data_map)
         if (left.shape[0] == 0) and (right.shape[0] == 0):
-            # pandas seems to not like this case
-            return self.pd.DataFrame({k: [] for k in op.columns_produced()})
+            # pandas seems to not like this case (no rows: the columns keep their types, left first)
+            return self.pd.DataFrame(
+                {
+                    k: (left[k] if k in left.columns else right[k])
+                    for k in op.columns_produced()
+                }
+            )
         common_cols = set([c for c in left.columns]).intersection(
             [c for c in right.columns]
         )
@@ -1196,7 +1211,20 @@ class PandasModelBase(
         assert set(data.columns) == set(blocks_in.block_columns)
         # table must be keyed by record_keys + control_table_keys
         if data.shape[0] < 1:
-            return self.pd.DataFrame({c: [] for c in blocks_in.row_columns})
+            # no rows: the declared columns, typed as the block columns they are read from
+            ct = self.data_frame(blocks_in.control_table)
+            source_col = {
+                ct[vc].iloc[i]: vc
+                for vc in ct.columns
+                if vc not in blocks_in.control_table_keys
+                for i in range(ct.shape[0])
+            }
+            return self.pd.DataFrame(
+                {
+                    c: data[c if c in blocks_in.record_keys else source_col[c]]
+                    for c in blocks_in.row_columns
+                }
+            )
         if not self.table_is_keyed_by_columns(
             data, column_names=blocks_in.record_keys + blocks_in.control_table_keys
         ):
@@ -1287,8 +1315,6 @@ class PandasModelBase(
         assert len(blocks_out.control_table_keys) > 0
         data = data.loc[:, blocks_out.row_columns].reset_index(drop=True, inplace=False)
         assert set(data.columns) == set(blocks_out.row_columns)
-        if data.shape[0] < 1:
-            return self.pd.DataFrame({c: [] for c in blocks_out.block_columns})
         if not self.table_is_keyed_by_columns(
             data, column_names=blocks_out.record_keys
         ):
